@@ -134,6 +134,9 @@ def handle? : List String → Option String
   | "gitdec" :: rest => do
     let (w, s) ← parseSit rest
     some (gitDecide w s).flag
+  | "giteff" :: rest => do
+    let (w, s) ← parseSit rest
+    some (gitEffectX w s).str
   | "neg" :: rest => Neg.handleNeg rest
   | _ => none
 
